@@ -1,2 +1,309 @@
-(* Proofs/Key.v – stub, being written *)
-From BV Require Import Common.Base Spec.Ecdsa Spec.Der Model.Key Proofs.Ecdsa Proofs.Der.
+(* Proofs/Key.v – the Python-side logic of Model/Key.v against the reference definitions:
+   CompareBigEndian is numeric comparison of big-endian numerals; IsLowDERSignature's
+   offset arithmetic finds S in every canonical DER signature; CECKey.sign returns the
+   canonical low-S signature, which verifies; WIF round trip; DERSignature / padding /
+   recovery-id search of sign_compact; recover = SEC1 4.1.6. *)
+From BV Require Import Common.Base Common.Codec Gen.Core Gen.Key Model.Base58 Spec.Base58 Spec.Ecdsa Spec.Der
+  Model.Key Proofs.Base58Digits Proofs.Base58Spec Proofs.Base58 Proofs.Ecdsa Proofs.Der.
+From Coq Require Import Znumtheory.
+
+(* ---------- big-endian numerals over Z digits ---------- *)
+Notation V := (value_msb 256).
+Notation digits := (Forall (fun d : Z => 0 <= d < 256)).
+Lemma V_cons x t : V (x :: t) = x * 256 ^ lenZ t + V t.
+Proof. unfold value_msb. cbn [fold_left]. rewrite fold_shift. ring. Qed.
+Lemma V_bounds l : digits l -> 0 <= V l < 256 ^ lenZ l.
+Proof.
+  induction 1 as [|x t Hx Ht IH]; [cbv; split; [discriminate|reflexivity]|].
+  rewrite V_cons. unfold lenZ in *. cbn [length]. rewrite Nat2Z.inj_succ, Z.pow_succ_r by lia.
+  assert (0 < 256 ^ Z.of_nat (length t)) by (apply Z.pow_pos_nonneg; lia). nia.
+Qed.
+Lemma V_bytes (b : bytes) : V (map b2z b) = be_value b.
+Proof. reflexivity. Qed.
+Lemma digits_bytes (b : bytes) : digits (map b2z b).
+Proof. apply bytes_in_range. Qed.
+
+(* ---------- CompareBigEndian ---------- *)
+Lemma pop_some k : forall c c', digits c -> (k <= length c)%nat -> pop_while_longer k c = Some c' ->
+  V c' = V c /\ length c' = (length c - k)%nat /\ digits c'.
+Proof.
+  induction k as [|k IH]; intros c c' D L E; cbn [pop_while_longer] in E.
+  - injection E as <-. repeat split; [lia|exact D].
+  - destruct c as [|x t]; [cbn [length] in L; lia|].
+    inversion D as [|? ? Hx Dt]; subst. destruct (Z.gtb_spec x 0); [discriminate|].
+    assert (x = 0) as -> by lia. cbn [length] in L.
+    destruct (IH t c' Dt ltac:(lia) E) as (E1 & E2 & E3).
+    rewrite V_cons. cbn [length]. repeat split; [lia|lia|exact E3].
+Qed.
+Lemma pop_none k : forall c, digits c -> (k <= length c)%nat -> pop_while_longer k c = None ->
+  256 ^ Z.of_nat (length c - k) <= V c.
+Proof.
+  induction k as [|k IH]; intros c D L E; cbn [pop_while_longer] in E; [discriminate|].
+  destruct c as [|x t]; [discriminate|]. inversion D as [|? ? Hx Dt]; subst. cbn [length] in *.
+  rewrite V_cons. pose proof (V_bounds t Dt) as B. unfold lenZ in *.
+  destruct (Z.gtb_spec x 0).
+  - assert (256 ^ Z.of_nat (length t - k) <= 256 ^ Z.of_nat (length t)) by (apply Z.pow_le_mono_r; lia).
+    replace (S (length t) - S k)%nat with (length t - k)%nat by lia. nia.
+  - assert (x = 0) as -> by lia. replace (S (length t) - S k)%nat with (length t - k)%nat by lia.
+    specialize (IH t Dt ltac:(lia) E). lia.
+Qed.
+Lemma diff_loop_sign : forall c1 c2, digits c1 -> digits c2 -> length c1 = length c2 ->
+  (diff_loop c1 c2 > 0 <-> V c1 > V c2) /\ (diff_loop c1 c2 < 0 <-> V c1 < V c2).
+Proof.
+  induction c1 as [|x t1 IH]; intros [|y t2] D1 D2 L; try discriminate; cbn [diff_loop].
+  - cbv. split; split; intros; discriminate.
+  - inversion D1 as [|? ? Hx Dt1]; inversion D2 as [|? ? Hy Dt2]; subst.
+    cbn [length] in L. injection L as L. rewrite !V_cons. unfold lenZ. rewrite L.
+    pose proof (V_bounds t1 Dt1) as B1. pose proof (V_bounds t2 Dt2) as B2. unfold lenZ in *. rewrite L in B1.
+    set (M := 256 ^ Z.of_nat (length t2)) in *.
+    destruct (Z.eqb_spec (x - y) 0) as [E0|NE]; cbn [negb].
+    + assert (x = y) as -> by lia. destruct (IH t2 Dt1 Dt2 L) as [I1 I2]. clearbody M.
+      split; [rewrite I1|rewrite I2]; split; intros; lia.
+    + clearbody M. split; split; intros; nia.
+Qed.
+(* the sign of CompareBigEndian is the order of the numerals *)
+Theorem compare_big_endian_spec c1 c2 : digits c1 -> digits c2 ->
+  (compare_big_endian c1 c2 > 0 <-> V c1 > V c2) /\ (compare_big_endian c1 c2 < 0 <-> V c1 < V c2).
+Proof.
+  intros D1 D2. unfold compare_big_endian.
+  pose proof (V_bounds c1 D1) as B1. pose proof (V_bounds c2 D2) as B2. unfold lenZ in *.
+  destruct (pop_while_longer (length c1 - length c2) c1) as [c1'|] eqn:P1.
+  - destruct (pop_some (length c1 - length c2) c1 c1' D1 ltac:(lia) P1) as (E1 & L1 & D1').
+    destruct (pop_while_longer (length c2 - length c1') c2) as [c2'|] eqn:P2.
+    + destruct (pop_some (length c2 - length c1') c2 c2' D2 ltac:(lia) P2) as (E2 & L2 & D2').
+      rewrite <- E1, <- E2. apply diff_loop_sign; [assumption|assumption|lia].
+    + pose proof (pop_none (length c2 - length c1') c2 D2 ltac:(lia) P2) as Lo.
+      pose proof (V_bounds c1' D1') as B1'. unfold lenZ in B1'.
+      assert (256 ^ Z.of_nat (length c1') <= 256 ^ Z.of_nat (length c2 - (length c2 - length c1')))
+        by (apply Z.pow_le_mono_r; lia).
+      split; split; intros; lia.
+  - pose proof (pop_none (length c1 - length c2) c1 D1 ltac:(lia) P1) as Lo.
+    assert (K : (length c1 - length c2 <> 0)%nat).
+    { intros K0. rewrite K0 in P1. discriminate. }
+    assert (256 ^ Z.of_nat (length c2) <= 256 ^ Z.of_nat (length c1 - (length c1 - length c2)))
+      by (apply Z.pow_le_mono_r; lia).
+    split; split; intros; lia.
+Qed.
+
+(* ---------- Python indexing into a concatenation ---------- *)
+Lemma py_getitem_mid {A} (pre : list A) x post i : i = lenZ pre -> py_getitem (pre ++ x :: post) i = Ok x.
+Proof.
+  intros ->. unfold lenZ. rewrite (py_getitem_nth _ x).
+  - rewrite Nat2Z.id. rewrite nth_middle. reflexivity.
+  - unfold lenZ. rewrite app_length. cbn [length]. lia.
+Qed.
+Lemma py_slice_mid {A} (pre mid post : list A) a b : a = lenZ pre -> b = lenZ pre + lenZ mid ->
+  py_slice (pre ++ mid ++ post) (Some a) (Some b) = mid.
+Proof.
+  intros -> ->. unfold py_slice, lenZ. rewrite !app_length.
+  rewrite !clamp_pos by lia. rewrite !Z.min_r by lia.
+  replace (Z.to_nat (Z.of_nat (length pre) + Z.of_nat (length mid) - Z.of_nat (length pre))) with (length mid) by lia.
+  rewrite Nat2Z.id. rewrite skipn_app, skipn_all, Nat.sub_diag. cbn [skipn app].
+  rewrite firstn_app, firstn_all, Nat.sub_diag. cbn [firstn]. apply app_nil_r.
+Qed.
+
+(* ---------- IsLowDERSignature on canonical DER ---------- *)
+Lemma offsets_eq : lowder_off_len_r = 3 /\ lowder_off_len_s = 5 /\ lowder_off_s = 6.
+Proof. repeat split; reflexivity. Qed.
+
+Theorem is_low_der_enc table r s : digits table -> small r -> small s ->
+  is_low_der_with table (enc_der r s) = Ok ((0 <? s) && (s <=? V table)).
+Proof.
+  intros DT Hr Hs. destruct offsets_eq as (O1 & O2 & O3).
+  unfold is_low_der_with. rewrite O1, O2, O3. unfold enc_der, der_int.
+  set (cr := der_int_content r). set (cs := der_int_content s).
+  pose proof (small_content r Hr) as Lr. pose proof (small_content s Hs) as Ls. fold cr in Lr. fold cs in Ls.
+  set (L := z2b (lenZ ((x02 :: z2b (lenZ cr) :: cr) ++ x02 :: z2b (lenZ cs) :: cs))).
+  (* sig[3] *)
+  change (x30 :: L :: (x02 :: z2b (lenZ cr) :: cr) ++ x02 :: z2b (lenZ cs) :: cs)
+    with ([x30; L; x02] ++ z2b (lenZ cr) :: (cr ++ x02 :: z2b (lenZ cs) :: cs)).
+  rewrite py_getitem_mid by reflexivity. cbn [bind].
+  rewrite z2b_small by (unfold lenZ; lia).
+  (* sig[5 + length_r] *)
+  replace ([x30; L; x02] ++ z2b (lenZ cr) :: cr ++ x02 :: z2b (lenZ cs) :: cs)
+    with (([x30; L; x02; z2b (lenZ cr)] ++ cr ++ [x02]) ++ z2b (lenZ cs) :: cs)
+    by (cbn [app]; rewrite <- !app_assoc; reflexivity).
+  rewrite py_getitem_mid by (unfold lenZ; rewrite !app_length; cbn [length]; lia). cbn [bind].
+  rewrite z2b_small by (unfold lenZ; lia).
+  (* the slice *)
+  replace (([x30; L; x02; z2b (lenZ cr)] ++ cr ++ [x02]) ++ z2b (lenZ cs) :: cs)
+    with (([x30; L; x02; z2b (lenZ cr)] ++ cr ++ [x02; z2b (lenZ cs)]) ++ cs ++ [])
+    by (rewrite app_nil_r; cbn [app]; rewrite <- !app_assoc; reflexivity).
+  rewrite py_slice_mid by (unfold lenZ; rewrite !app_length; cbn [length]; lia).
+  rewrite Z.eqb_refl. cbn [negb].
+  destruct (content_spec s ltac:(unfold small in Hs; lia)) as [_ Vs]. fold cs in Vs.
+  pose proof (compare_big_endian_spec (map b2z cs) [0] (digits_bytes cs) ltac:(repeat constructor; lia)) as [C1 _].
+  pose proof (compare_big_endian_spec (map b2z cs) table (digits_bytes cs) DT) as [C2 _].
+  rewrite V_bytes, Vs in C1, C2. change (V [0]) with 0 in C1.
+  f_equal. f_equal.
+  - destruct (Z.gtb_spec (compare_big_endian (map b2z cs) [0]) 0); destruct (Z.ltb_spec 0 s); try reflexivity; lia.
+  - destruct (Z.leb_spec (compare_big_endian (map b2z cs) table) 0); destruct (Z.leb_spec s (V table)); try reflexivity; lia.
+Qed.
+
+(* ---------- the generated table ---------- *)
+Lemma digits_of_forallb l : forallb (fun d => (0 <=? d) && (d <? 256)) l = true -> digits l.
+Proof.
+  intros H. apply Forall_forall. intros x Hx. rewrite forallb_forall in H. specialize (H x Hx).
+  apply andb_true_iff in H as [H1 H2]. apply Z.leb_le in H1. apply Z.ltb_lt in H2. lia.
+Qed.
+Lemma table_digits : digits max_mod_half_order.
+Proof. apply digits_of_forallb. vm_compute. reflexivity. Qed.
+
+(* ---------- CECKey.sign / verify ---------- *)
+Section KeyLaws.
+Variable E : curve.
+Hypothesis L : curve_laws E.
+Hypothesis n_small : c_n E < 2 ^ 256.
+(* the table of IsLowDERSignature is the half order of this group *)
+Hypothesis table_ok : V max_mod_half_order = c_n E / 2.
+Notation n := (c_n E).
+
+Lemma mod_n_small a : small (a mod n).
+Proof. pose proof (n_ge_2 E L). pose proof (Z.mod_pos_bound a n ltac:(lia)). unfold small. lia. Qed.
+Lemma sign_raw_small d e k : small (fst (sign_raw E d e k)) /\ small (snd (sign_raw E d e k)).
+Proof. unfold sign_raw. cbn [fst snd]. split; apply mod_n_small. Qed.
+
+Lemma hash_len32 (h : bytes) : length h = 32%nat -> (lenZ h =? 32) = true.
+Proof. intros H. unfold lenZ. rewrite H. reflexivity. Qed.
+
+Theorem cec_sign_spec d hash k : length hash = 32%nat -> valid_nonce E d (be_dec hash) k ->
+  cec_sign E d hash k =
+  Ok (enc_der (fst (sign_raw E d (be_dec hash) k)) (norm_s E (snd (sign_raw E d (be_dec hash) k)))).
+Proof.
+  intros Lh (Hk & Hr & Hs). unfold cec_sign, ossl_sign. rewrite (hash_len32 hash Lh). cbn [negb].
+  destruct (sign_raw_small d (be_dec hash) k) as [Sr Ss].
+  destruct (sign_raw E d (be_dec hash) k) as [r s]. cbn [fst snd] in *.
+  unfold is_low_der. rewrite (is_low_der_enc _ r s table_digits Sr Ss). cbn [bind]. rewrite table_ok.
+  unfold norm_s. destruct (Z.ltb_spec 0 s) as [P|]; [|unfold small in Ss; lia]. cbn [andb].
+  destruct (Z.leb_spec s (n / 2)).
+  - destruct (Z.gtb_spec s (n / 2)); [lia|reflexivity].
+  - unfold signature_to_low_s. rewrite (parse_enc_der r s Sr Ss).
+    rewrite Z.shiftr_div_pow2 by lia. change (2 ^ 1) with 2.
+    destruct (Z.gtb_spec s (n / 2)); [reflexivity|lia].
+Qed.
+
+(* every property of the returned signature *)
+Theorem cec_sign_ok d hash k : length hash = 32%nat -> valid_nonce E d (be_dec hash) k ->
+  exists sig r s, cec_sign E d hash k = Ok sig /\
+    parse_der sig = Some (r, s) /\ (forall b, parse_der b = Some (r, s) -> b = sig) /\
+    (length sig <= 72)%nat /\ low_s E s = true /\ verify_ref E (pub E d) (be_dec hash) r s = true.
+Proof.
+  intros Lh V0. pose proof V0 as (Hk & Hr & Hs).
+  destruct (sign_raw_small d (be_dec hash) k) as [Sr Ss].
+  assert (Rs : 1 <= snd (sign_raw E d (be_dec hash) k) < n) by (unfold small in Ss; unfold sign_raw in *; cbn [snd fst] in *;
+    pose proof (n_ge_2 E L); pose proof (Z.mod_pos_bound (inv_mod k n * (be_dec hash + c_x E (c_mul E k c_gen) mod n * d)) n ltac:(lia)); lia).
+  destruct (norm_s_low E _ Rs) as [Lo Rn].
+  assert (Sn : small (norm_s E (snd (sign_raw E d (be_dec hash) k)))) by (unfold small; lia).
+  eexists _, _, _. split; [apply cec_sign_spec; assumption|].
+  split; [apply parse_enc_der; assumption|].
+  split; [intros b Hb; apply parse_der_inv in Hb; tauto|].
+  split; [apply enc_der_length; assumption|].
+  split; [exact Lo|]. apply verify_sign_low; assumption.
+Qed.
+
+Theorem cec_verify_strict Q hash sig r s : parse_der sig = Some (r, s) ->
+  cec_verify E (Some Q) hash sig = verify_ref E Q (be_dec hash) r s.
+Proof.
+  intros P. unfold cec_verify. destruct sig as [|b t]; [discriminate|]. rewrite P. reflexivity.
+Qed.
+Lemma cec_verify_empty Q hash : cec_verify E Q hash [] = false.
+Proof. reflexivity. Qed.
+End KeyLaws.
+
+(* ---------- CPubKey flags as written ---------- *)
+Theorem pk_flags b : pk_is_valid b = negb (length b =? 0)%nat /\ pk_is_compressed b = (length b =? 33)%nat.
+Proof.
+  unfold pk_is_valid, pk_is_compressed, lenZ. change pubkey_compressed_len with 33. split.
+  - destruct (length b); [reflexivity|]. destruct (Z.gtb_spec (Z.of_nat (S n)) 0); [reflexivity|lia].
+  - destruct (Z.eqb_spec (Z.of_nat (length b)) 33); destruct (Nat.eqb_spec (length b) 33); try reflexivity; lia.
+Qed.
+(* fully valid keys have one of the three SEC1 shapes (whatever the curve) *)
+Theorem pk_fullyvalid_shape E b : pk_is_fullyvalid E b = true ->
+  b = [x00] \/
+  (length b = 33%nat /\ exists h t, b = h :: t /\ (b2z h = 2 \/ b2z h = 3)) \/
+  (length b = 65%nat /\ exists h t, b = h :: t /\ (b2z h = 4 \/ b2z h = 6 \/ b2z h = 7)).
+Proof.
+  unfold pk_is_fullyvalid, sec1_dec. destruct b as [|h t]; [discriminate|].
+  destruct (Nat.eqb_spec (length t) 0) as [L0|_].
+  - destruct (Z.eqb_spec (b2z h) 0) as [Z0|]; [|discriminate]. intros _. left.
+    destruct t; [|discriminate]. f_equal. apply b2z_inj. exact Z0.
+  - destruct (Nat.eqb_spec (length t) 32) as [L32|_].
+    + destruct (Z.eqb_spec (b2z h) 2); [intros _; right; left; split; [cbn [length]; lia|eauto]|].
+      destruct (Z.eqb_spec (b2z h) 3); [intros _; right; left; split; [cbn [length]; lia|eauto]|discriminate].
+    + destruct (Nat.eqb_spec (length t) 64) as [L64|_]; [|discriminate].
+      destruct (Z.eqb_spec (b2z h) 4); [intros _; right; right; split; [cbn [length]; lia|eauto 6]|].
+      destruct (Z.eqb_spec (b2z h) 6); [intros _; right; right; split; [cbn [length]; lia|eauto 6]|].
+      destruct (Z.eqb_spec (b2z h) 7); [intros _; right; right; split; [cbn [length]; lia|eauto 7]|discriminate].
+Qed.
+
+(* ---------- WIF ---------- *)
+Section Wif.
+Variable H : bytes -> bytes.
+Hypothesis H_len : forall x, (4 <= length (H x))%nat.
+Definition flag (c : bool) : bytes := if c then [x01] else [].
+
+Lemma secret_init_ok prefix secret c : length secret = 32%nat ->
+  secret_init prefix (prefix, secret ++ flag c) = Ok (secret, c).
+Proof.
+  intros Ls. unfold secret_init. rewrite Z.eqb_refl. cbn [negb].
+  replace (py_slice (secret ++ flag c) (Some 0) (Some 32)) with secret
+    by (symmetry; apply (py_slice_mid [] secret (flag c)); unfold lenZ; [reflexivity|rewrite Ls; reflexivity]).
+  rewrite (hash_len32 secret Ls). cbn [negb]. f_equal. f_equal.
+  destruct c; cbn [flag].
+  - rewrite (py_getitem_mid secret x01 []) by (unfold lenZ; rewrite Ls; reflexivity).
+    unfold lenZ. rewrite app_length, Ls. reflexivity.
+  - rewrite app_nil_r. unfold lenZ. rewrite Ls. reflexivity.
+Qed.
+
+Theorem wif_roundtrip prefix secret c : 0 <= prefix < 256 -> length secret = 32%nat ->
+  exists t, secret_text H prefix secret c = Ok t /\ t = spec_to_text H prefix (secret ++ flag c) /\
+            secret_parse H prefix t = Ok (secret, c) /\
+            (forall prefix', prefix' <> prefix -> secret_parse H prefix' t = Err SecretErr).
+Proof.
+  intros Hp Ls. destruct (check_roundtrip H H_len prefix (secret ++ flag c) Hp) as (t & T1 & T2 & T3).
+  exists t. unfold secret_text, secret_parse. unfold to_text in T1.
+  change (if c then [x01] else []) with (flag c).
+  assert (FB : from_bytes (secret ++ flag c) prefix = Ok (prefix, secret ++ flag c)).
+  { unfold from_bytes. destruct (Z.leb_spec 0 prefix); [|lia]. destruct (Z.leb_spec prefix 255); [|lia]. reflexivity. }
+  rewrite FB in *. cbn [bind] in *.
+  rewrite (secret_init_ok prefix secret c Ls). cbn [bind]. split; [exact T1|]. split; [exact T2|].
+  rewrite T3. cbn [bind]. split; [apply secret_init_ok; exact Ls|].
+  intros prefix' Ne. unfold secret_init. destruct (Z.eqb_spec prefix prefix'); [congruence|reflexivity].
+Qed.
+End Wif.
+
+(* the four chains regenerated from /repo have SECRET_KEY prefixes in byte range *)
+Lemma chains_prefix_range : forallb (fun p => (0 <=? cp_secret_key p) && (cp_secret_key p <? 256)) chains = true
+  /\ length chains = 4%nat.
+Proof. split; vm_compute; reflexivity. Qed.
+Theorem wif_roundtrip_chains H : (forall x, (4 <= length (H x))%nat) ->
+  forall p, In p chains -> forall secret c, length secret = 32%nat ->
+  exists t, secret_text H (cp_secret_key p) secret c = Ok t /\
+            t = spec_to_text H (cp_secret_key p) (secret ++ flag c) /\
+            secret_parse H (cp_secret_key p) t = Ok (secret, c) /\
+            (forall q, In q chains -> cp_secret_key q <> cp_secret_key p ->
+                       secret_parse H (cp_secret_key q) t = Err SecretErr).
+Proof.
+  intros HL p Hp secret c Ls. destruct chains_prefix_range as [R _].
+  rewrite forallb_forall in R. specialize (R p Hp). apply andb_true_iff in R as [R1 R2].
+  apply Z.leb_le in R1. apply Z.ltb_lt in R2.
+  destruct (wif_roundtrip H HL (cp_secret_key p) secret c ltac:(lia) Ls) as (t & T1 & T2 & T3 & T4).
+  exists t. repeat split; try assumption. intros q _ Ne. apply T4. exact Ne.
+Qed.
+
+(* ---------- the concrete parameters meet the side conditions ---------- *)
+From BV Require Import Model.Secp256k1.
+Lemma secp_table_ok : V max_mod_half_order = c_n secp256k1 / 2.
+Proof. vm_compute. reflexivity. Qed.
+Lemma secp_n_small : c_n secp256k1 < 2 ^ 256.
+Proof. vm_compute. reflexivity. Qed.
+Lemma secp_p_bounds : c_n secp256k1 <= c_p secp256k1 /\ c_p secp256k1 < 2 * c_n secp256k1 /\
+  c_p secp256k1 <= 2 ^ 256 /\ Z.log2 (c_p secp256k1) + 1 = 256.
+Proof. repeat split; vm_compute; try reflexivity; discriminate. Qed.
+
+(* IsLowDERSignature, with the table regenerated from /repo, against the secp256k1 order *)
+Theorem is_low_der_secp r s : small r -> small s ->
+  is_low_der (enc_der r s) = Ok (low_s secp256k1 s).
+Proof.
+  intros Hr Hs. unfold is_low_der. rewrite (is_low_der_enc _ r s table_digits Hr Hs), secp_table_ok. reflexivity.
+Qed.
